@@ -102,3 +102,29 @@ void h_batch(void) {
     for (unsigned i = 0; i < 6; ++i) if (i < refn) __CPROVER_assert(now[i] == ref[i], "C10.batch: final deque contents equal the sequential execution");
     VX_REACH_GUARD();
 }
+
+/* ---- public entry points: what the caller is told, for a publication record re-used from earlier operations (stale fields) */
+void w_stale_rec(vx_bool bEmpty, int* junk); void w_elimination(vx_bool on); vx_bool w_push_front(const int*); vx_bool w_push_back(const int*); vx_bool w_pop_front(int*); vx_bool w_pop_back(int*); unsigned w_rec_req(unsigned);
+void h_entry_points(void) {
+    int init[DQ_MAX]; unsigned initn = (unsigned)nondet_int() % 4;
+    for (unsigned i = 0; i < 4; ++i) init[i] = nondet_int();
+    w_set_deque(init, initn);
+    int junk = nondet_int(), v = nondet_int(), out = nondet_int(), out0 = out;
+    w_stale_rec(nondet_int() & 1, &junk);                  /* whatever the previous operation of this thread left in the record */
+    w_elimination(nondet_int() & 1);
+    unsigned which = (unsigned)nondet_int() % 4; vx_bool r;
+    if (which == 0) r = w_push_front(&v); else if (which == 1) r = w_push_back(&v); else if (which == 2) r = w_pop_front(&out); else r = w_pop_back(&out);
+    int now[DQ_MAX]; unsigned nn = w_get_deque(now);
+    if (which <= 1) {
+        __CPROVER_assert(r && nn == initn + 1 && now[which == 0 ? 0 : initn] == v, "C10.entry: push returns true and the value is at the chosen end");
+        for (unsigned i = 0; i < 3; ++i) if (i < initn) __CPROVER_assert(now[which == 0 ? i + 1 : i] == init[i], "C10.entry: push keeps the other elements in order");
+    } else if (initn == 0) {
+        __CPROVER_assert(!r && out == out0 && nn == 0, "C10.entry: pop on an empty deque returns false and leaves the target unchanged");
+    } else {
+        __CPROVER_assert(r, "C10.entry: pop on a non-empty deque returns true, whatever an earlier operation left in the caller's publication record");
+        __CPROVER_assert(out == (which == 2 ? init[0] : init[initn - 1]) && nn == initn - 1, "C10.entry: pop delivers the element at the chosen end and removes exactly it");
+        for (unsigned i = 0; i < 3; ++i) if (i + 1 < initn) __CPROVER_assert(now[i] == init[which == 2 ? i + 1 : i], "C10.entry: pop keeps the other elements in order");
+    }
+    __CPROVER_assert(w_rec_req(0) == 0, "C10.entry: the record is released (empty) on return");
+    VX_REACH_GUARD();
+}
